@@ -2,7 +2,7 @@
 // One node under test (NUT) between generated feeders and generated sinks, plus direct try_get/try_reserve/try_release/try_consume calls.
 //
 // program text:
-//   nut <kind> par=<1..4> sink=<0 queueing serial|1 rejecting serial|2 none|3 lightweight unlimited> swork=<k> via=<0 direct|1 serial feeder node|2 unlimited feeder node>
+//   nut <kind> par=<1..4> sink=<0 queueing serial|1 rejecting serial|2 none|3 lightweight unlimited> swork=<k> via=<0 direct|1 serial feeder node|2 unlimited feeder node|3 queue_node in front (lim)|4 queue_node in front and direct puts on port 1 (lim)>
 //       thr=<t> fb=<0|1> nsink=<n> witness=<0|1>
 //       kinds: q buf pq seq (buffers)   jq jk jr (join queueing / key_matching / reserving behind two queue_nodes)   lim   ow wo   bc   split idx
 //   t <thread> <op> ...
@@ -27,7 +27,8 @@ struct GOp { char c; int port = 0, id = 0, aux = 0, k = 0; };
 std::string h_gen(Src& s) {
     bool witness = drv_flag("--witness");
     static const uint32_t W[N_KINDS] = { 5, 4, 4, 4, 4, 4, 4, 5, 2, 2, 1, 1, 1 };
-    int kind = witness ? N_BUF : (int)s.weighted({ W[0], W[1], W[2], W[3], W[4], W[5], W[6], W[7], W[8], W[9], W[10], W[11], W[12] });
+    bool limmix = drv_flag("--limmix");      // focused: limiter<Msg,int> fed through a queue AND directly, slow lightweight successor, decrements of 0..3
+    int kind = witness ? N_BUF : limmix ? N_LIM : (int)s.weighted({ W[0], W[1], W[2], W[3], W[4], W[5], W[6], W[7], W[8], W[9], W[10], W[11], W[12] });
     int par = s.range(1, 4); if (par < 2 && s.flip()) par = 2;
     int nthr = 1 + (int)s.weighted({ 3, 5, 2 }); if (witness && nthr < 2) nthr = 2;
     int sink = (int)s.weighted({ 3, 5, 1 }), swork = s.range(0, 6), via = (int)s.weighted({ 5, 2, 2 }), thr = s.range(1, 4), fb = 0, nsink = 2; bool idec = false;   // idec: limiter_node<Msg, int> with integral decrements of 1..3
@@ -41,7 +42,7 @@ std::string h_gen(Src& s) {
         sink = witness ? (int)s.weighted({ 0, 2, 5 }) : (int)s.weighted({ 2, 4, 3 }); if (sink == 1) swork = s.range(4, 24);
         if (kind == N_BUF && !witness && use_res && sink == 1) { sink = 0; excl = true; }
     } else if (joinlike(kind)) { if (sink == 2) sink = 1; if (kind == N_JR) via = 0; if (sink == 1) swork = s.range(3, 20); }
-    else if (kind == N_LIM) { fb = s.choose(3) == 0; idec = !fb && s.coin(2); via = (int)s.weighted({ 3, 0, 0, 4 }); /* via=3: queue_node predecessor */ sink = (int)s.weighted({ 3, via == 3 ? 0u : 2u, 0, 3 }); if (sink == 1) swork = s.range(3, 15); }
+    else if (kind == N_LIM) { fb = s.choose(3) == 0; idec = !fb && s.coin(2); via = (int)s.weighted({ 3, 0, 0, 4, idec ? 3u : 0u }); /* via=3: queue_node predecessor; via=4: the queue AND direct puts to the limiter (port 1) */ sink = (int)s.weighted({ 3, via >= 3 ? 0u : 2u, 0, 3 }); if (sink == 1) swork = s.range(3, 15); if (limmix) { fb = 0; idec = true; via = 4; thr = s.range(1, 2); } if (via == 4) { sink = 3; swork = s.range(4, 20); } }
     else if (kind == N_OW || kind == N_WO) { sink = 0; }
     else if (kind == N_BC) { sink = s.flip() ? 0 : 3; nsink = s.range(2, 3); via = via == 2 ? 0 : via; }
     else { sink = 0; }
@@ -61,13 +62,13 @@ std::string h_gen(Src& s) {
             uint32_t c = (q == 0 && t == 0) ? 0 : s.weighted({ wp, wg, wr, wd, we, ww });
             if (c == 0) {
                 if (nid >= 30) continue;
-                op.c = 'P'; op.id = nid++; op.port = (joinlike(kind) || kind == N_IDX) ? (int)s.choose(2) : 0;
+                op.c = 'P'; op.id = nid++; op.port = (joinlike(kind) || kind == N_IDX || (kind == N_LIM && via == 4)) ? (int)s.choose(2) : 0;
                 if (kind == N_SEQ) op.aux = 0;      // assigned below
                 else if (kind == N_PQ) op.aux = (int)s.choose(4);
                 else if (kind == N_JK) op.aux = (int)s.choose(3);
             } else if (c == 1) { op.c = 'G'; op.port = kind == N_JR ? (int)s.choose(2) : 0; }
             else if (c == 2) { op.c = 'R'; holding = true; }
-            else if (c == 3) { op.c = 'D'; op.k = idec ? (s.coin(4) ? 0 : s.range(1, 3)) : 1; }      // a decrement of 0 changes nothing but still makes the limiter look at its predecessors
+            else if (c == 3) { op.c = 'D'; op.k = idec ? (s.coin(limmix ? 2 : 4) ? 0 : s.range(1, 3)) : 1; }      // a decrement of 0 changes nothing but still makes the limiter look at its predecessors
             else if (c == 4) { op.c = 'E'; attach_done = true; }
             else { op.c = 'W'; op.k = s.range(1, 6); }
             th[t].push_back(op);
@@ -231,7 +232,7 @@ void h_run(Case& c) {
         auto* s = new SinkNode<Msg, SinkB>(g_sinkpol, 0);
         if (g_idec) { g_limi = new limiter_node<Msg, int>(*G, (size_t)g_thr); make_edge(*g_limi, s->in()); }
         else { g_lim = new limiter_node<Msg>(*G, (size_t)g_thr); make_edge(*g_lim, s->in()); if (g_fb) make_edge(s->out(), g_lim->decrementer()); }
-        if (g_via == 3) { auto* q = new queue_node<Msg>(*G); if (g_limi) make_edge(*q, *g_limi); else make_edge(*q, *g_lim); g_port[0] = q; g_sender[0] = q; } else g_port[0] = lim_recv();
+        if (g_via >= 3) { auto* q = new queue_node<Msg>(*G); if (g_limi) make_edge(*q, *g_limi); else make_edge(*q, *g_lim); g_port[0] = q; g_sender[0] = q; if (g_via == 4) g_port[1] = lim_recv(); } else g_port[0] = lim_recv();
         break; }
     case N_OW: case N_WO: {
         g_ow = g_kind == N_OW ? new overwrite_node<Msg>(*G) : new write_once_node<Msg>(*G); g_port[0] = g_ow; g_sender[0] = g_ow;
@@ -405,6 +406,9 @@ static void judge_lim() {
     }
     std::vector<int> seen(IT.size(), 0); for (auto& e : EX) if (e.how == 0) seen[item(e.id).id]++;
     for (auto& it : IT) if (it.id >= 0 && seen[it.id] > 1) vs_violation("DUP-ITEM", "limiter forwarded item %d %d times", it.id, seen[it.id]);
+    if (g_via == 4) {
+        // mixed feeding (queue predecessor and direct puts): judged by the threshold oracle at every forward (sink body) and the duplicate check above only
+    } else
     if (g_via != 3) {
         for (auto& it : IT) {
             if (it.id < 0 || !it.done) continue;
